@@ -268,6 +268,9 @@ def merge_value(c, a, b):
     if isinstance(a, BitSet):
         return BitSet(merge_value(c, x, y) for x, y in zip(a.bits, b.bits))
     if isinstance(a, TailSeq):
+        if not isinstance(b, TailSeq) or a.prefix != b.prefix or len(a.items) != len(b.items):
+            # logs of different lengths on the two paths: keep both (never drop an appended record)
+            return mk_choice([(c, a), (Not_(c), b)])
         return TailSeq(a.prefix, tuple(merge_value(c, x, y) for x, y in zip(a.items, b.items)))
     if isinstance(a, FlagSet):
         return FlagSet({k: If_(c, a.flags[k], b.flags[k]) for k in a.flags})
